@@ -6,6 +6,7 @@ mod c04;
 mod c05;
 mod c06;
 mod c07;
+mod c08;
 mod c10;
 mod c11;
 mod c12;
@@ -67,6 +68,8 @@ fn main() {
         "C05" => c05::run(&args),
         "C06" => c06::run(&args),
         "C07" => c07::run(&args),
+        "C08" => c08::run(&args, false),
+        "C09" => c08::run(&args, true),
         "C10" => c10::run(&args),
         "C11" => c11::run(&args),
         "C12" => c12::run(&args),
